@@ -7,6 +7,14 @@ BASE_NOTE = ("Trusted: Coq 8.16.1 kernel (no native_compute; vm_compute only in 
              "(Print Assumptions parsed every run; theorems at R would add the 3 stdlib real axioms); ExtrOcamlBasic extraction with Z/Q/Qc kept as datatypes + a Zarith I/O driver; "
              "the Python correspondence harness and its tolerances; JAX/NumPy primitives are modelled by contracts (rfftn/irfftn = DFT half-spectrum, scan = fold, exp). ")
 CLAIMED = {
+ "C03": dict(text="Theorems for every D, N, state and field of characteristic 0: the dealiasing cutoffs satisfy 3K<N (2/3 rule) and 4K<N (1/2 rule) for all N; with (q+2)K<N the pseudo-spectral "
+                  "product (circular convolution on the N-grid) equals the alias-free product on the retained band and vanishes outside it (index argument, any dimension); hence each built-in "
+                  "term (4 convection forms, gradient norm, polynomial<=3, general nonlinear, 2D vorticity, 3D projected + Leray, Cahn-Hilliard, Gray-Scott) equals the documented operator applied to "
+                  "the band-truncated state; the 1-D convolution theorem from a primitive root. The term models are run (extracted, exact Gaussian rationals, sparse band convolutions) against "
+                  "every exponax nonlinear function on random states with content up to Nyquist.",
+             note="The retained band is read from the implementation's mask (floor of frac*(N//2)-1 in double precision, which can be one below the rational cutoff); the theorems need only K <= K(N), "
+                  "which the check verifies for N up to 260. D-dimensional convolution theorem = per-axis iterate (1-D proved). Polynomial degree > 3 not modelled. Independent NumPy fine-grid oracle as witness.",
+             technique="Rocq proof (lia/nia index argument for alias-freeness, lifting over term combinators) + exact-rational term correspondence", design="§4 C03"),
  "C04": dict(text="Theorems: (Z arithmetic, all N) the stored index <-> signed wavenumber map is a bijection onto the band and congruent to the index mod N; mode-slice blocks partition "
                   "the leading axes and preserve the signed wavenumber when copied to a finer grid; oddball mask spec; both indexing options give wavenumber_shape with the rfft component on the "
                   "last array axis and components aligned with the grid (D<=3); wrap_bc. (Any field with a primitive n-th root, all n) orthogonality, idft.dft = id for every state, a sampled "
